@@ -216,6 +216,43 @@ func idxInRange(facts []fact, idx, x ssa.Value) bool {
 	return false
 }
 
+// foundIndex: v is the result of strings/bytes.Index*(x, ...) and a dominating fact says it is not negative.
+// Then 0 <= v <= len(x); strict reports v < len(x) (always for byte/rune searches, for substring searches
+// when the needle is a non-empty constant).
+func foundIndex(facts []fact, v, x ssa.Value) (found, strict bool) {
+	c, ok := v.(*ssa.Call)
+	if !ok || len(c.Call.Args) < 2 || !samePlace(c.Call.Args[0], x) {
+		return false, false
+	}
+	switch core.CalleeName(&c.Call) {
+	case "strings.IndexByte", "strings.IndexRune", "bytes.IndexByte", "bytes.IndexRune", "strings.LastIndexByte", "bytes.LastIndexByte":
+		strict = true
+	case "strings.Index", "bytes.Index", "strings.LastIndex", "bytes.LastIndex", "strings.IndexAny", "bytes.IndexAny":
+		if k := core.ConstOf(c.Call.Args[1]); k != nil && k.Kind() == constant.String && constant.StringVal(k) != "" {
+			strict = true
+		}
+	default:
+		return false, false
+	}
+	for _, f := range facts {
+		bo, ok := f.cond.(*ssa.BinOp)
+		if !ok || bo.X != v {
+			continue
+		}
+		k, isC := intConst(bo.Y)
+		if !isC {
+			continue
+		}
+		switch {
+		case bo.Op == token.LSS && k == 0 && !f.truth, bo.Op == token.GEQ && k == 0 && f.truth,
+			bo.Op == token.EQL && k == -1 && !f.truth, bo.Op == token.NEQ && k == -1 && f.truth,
+			bo.Op == token.GTR && k == -1 && f.truth, bo.Op == token.LEQ && k == -1 && !f.truth:
+			return true, strict
+		}
+	}
+	return false, false
+}
+
 func nonNilFact(facts []fact, ptr ssa.Value) bool {
 	for _, f := range facts {
 		bo, ok := f.cond.(*ssa.BinOp)
@@ -493,6 +530,18 @@ func checkC08(p *core.Program, r *core.Report) {
 						}
 					} else if x.High == nil {
 						ok = idxInRange(facts, x.Low, x.X) // low < len(x) implies low <= len(x)
+						if !ok {
+							// s[i+1:] / s[i:] with i the (found) result of a search in s
+							if bo, isAdd := x.Low.(*ssa.BinOp); isAdd && bo.Op == token.ADD {
+								if k, isC := intConst(bo.Y); isC && k == 1 {
+									if found, strict := foundIndex(facts, bo.X, x.X); found && strict {
+										ok = true
+									}
+								}
+							} else if found, _ := foundIndex(facts, x.Low, x.X); found {
+								ok = true
+							}
+						}
 					}
 				}
 				if x.High != nil {
@@ -500,6 +549,8 @@ func checkC08(p *core.Program, r *core.Report) {
 						ok = ok && lenAtLeast(facts, x.X, k)
 					} else if lx := lenCallOf(x.High); lx != nil && samePlace(lx, x.X) {
 						// s[a:len(s)]
+					} else if found, _ := foundIndex(facts, x.High, x.X); found && x.Low == nil {
+						// s[:i] with i the (found) result of a search in s
 					} else {
 						ok = false
 					}
